@@ -269,6 +269,7 @@ pub fn from_value(v: &Value) -> RVal {
   }
 }
 
-fn cb(x: f64) -> u64 { if x.is_nan() { NAN64 } else { x.to_bits() } }
+/// complex parts: NaN canonical, and -0.0 is not distinguished from 0.0 (a negated literal `-a+bi` negates both parts)
+fn cb(x: f64) -> u64 { if x.is_nan() { NAN64 } else if x == 0.0 { 0f64.to_bits() } else { x.to_bits() } }
 
 pub type Snapshot = BTreeMap<String, RVal>;
